@@ -43,13 +43,27 @@ RULE = ("seeded layouts: 1-4 scalar features (+image, +trace group with an optio
         "same sha256, output at name+'.rtdc' (or refused when that is the input), by-standers "
         "untouched, no stray files. tdms2rtdc on a DIRECTORY of 2 (thorough: up to 4) different "
         "measurements, the one with the fewest features first: every innate feature of each source "
-        "is in its output. Non-trivial = the layout has a dataset that is re-created (not "
+        "is in its output. Session 4: 35% of the float scalar features carry 1-3 of NaN / +inf / "
+        "-inf (12% of those: all NaN); image / trace / internal-basin mask datasets are chunked with "
+        "trailing chunk shapes in {full axis, proper divisor, NON-divisor (ragged edge chunks), "
+        "ragged last axis only}; internal basins list 1-3 features (userdef1, userdef0, mask) in a "
+        "seeded order, 40% of the file basins list theirs in descending order; k = 3-4 (thorough "
+        "4-6) successive dclab-compress runs of one file (every run's command log must survive); "
+        "skip_empty_image_events on 14 (thorough 64) combinations of (initial, final, first image "
+        "empty, last image empty, n in {1,2,3,5}). Non-trivial = the layout has a dataset that is re-created (not "
         "object-copied) / the output name needs the suffix correction. distinct = distinct layout "
         "specs / (task, names).")
 TRUSTED_BASE = [
     "modelled, not verified: HDF5 filters, h5py.h5o.copy, h5py iter_chunks covering the dataset, "
     "create_dataset defaults (auto-chunking), numpy astype('S<n>')",
-    "harness/c08_util.py: read_items (raw h5py -> protocol items, row bytes -> tokens), dclab_view"]
+    "harness/c08_util.py: read_items (raw h5py -> protocol items, row bytes -> tokens), dclab_view",
+    "the chunk loop is modelled along the event axis only: chunk shapes that split the trailing axes "
+    "(ragged edge chunks) are exercised by the generator, not modelled",
+    "h5py refuses to create a link under an existing name (renameCollides; probed on every run); "
+    "the suffixes of renamed command logs are read off the output (a NOTE is recorded when they are "
+    "not dclab.util.hashfile of the run's input)",
+    "numpy nanmin / nanmax / nanmean as reference for the summary attributes (tolerance 1e-11, "
+    "1e-5 for float32)"]
 ASSUMPTIONS = [
     "a feature is stored either in /events or in /basin_events, not in both",
     "variable-length HDF5 strings contain no NUL byte",
@@ -57,15 +71,28 @@ ASSUMPTIONS = [
     "dclab-compress only brands the software version (O8); the harness checks that no other "
     "attribute than the O8 keys differs"]
 NOT_PROVED = [
-    "compress_idempotent_on_data / repack_idempotent_on_data are proved with the well-formedness "
-    "of the first run's output as hypothesis (…_partial); idempotence is checked on every "
-    "generated file",
-    "exact characterisation of tdms2rtdc's boundary-image skipping (only sub-list / identity "
-    "theorems); tdms2rtdc is correspondence-only and runs in the thorough tier",
+    "compress_idempotent_on_data / repack_idempotent_on_data keep the well-formedness (WF) of the "
+    "first run's output as hypothesis (…_partial); the closure WF(input) -> WF(output) is FALSE "
+    "(idempotence_needs_surviving_basin_features_witness: an internal basin that lists a feature "
+    "stored as an empty dataset; replayed on the real code, candidate finding); what would make it "
+    "true — every feature named by an internal basin is stored non-empty, known and not defective "
+    "— is not proved to be preserved; NoUnknownFeature of the output IS proved "
+    "(copy_output_has_no_unknown_feature); idempotence is checked on every generated file",
+    "tdms2rtdc: which events are dropped is proved exactly (tdms2rtdc_exact / _count / _index) "
+    "and skip_empty_image_events is compared with it on HDF5 data; the feature VALUES read from "
+    ".tdms files are correspondence-only (directory conversion in the quick tier, single files in "
+    "the thorough tier); the CorruptFrameWarning branch of the final-event test is not exercised",
+    "command logs across generations: proved for files without command logs and for the "
+    "'dclab-compress' log; the environment-dependent 'dclab-compress-warnings' logs are renamed by "
+    "the same model function but not part of the history theorem; that run n+2 does NOT collide "
+    "when the hashes are distinct is shown by example only (compress_equal_hash_collides is the "
+    "general statement for equal hashes)",
     "input immutability: the path arithmetic of setup_task_paths is proved (setup_never_touches_"
     "input, setup_refuses_input_as_output); that the tasks open the input read-only is checked "
     "by sha256 only (shared trace property with C10)",
-    "values of ancillary features written by condense (C06) are compared with ds[feat], not proved"]
+    "values of ancillary features written by condense (C06) are compared with ds[feat], not proved",
+    "values of the completed min/max/mean attributes are an opaque token in the model "
+    "(Env.summary); the harness compares them with numpy's NaN-aware summaries of the stored data"]
 
 O8_ENC = {U.enc(k) for k in U.O8_KEYS}
 
@@ -149,27 +176,43 @@ def compare_items(model, actual, cmd_logs_free=True, ignore_attr_keys=()):
     return diffs
 
 
-def check_summaries(path, model):
-    """attributes the model says were completed must hold the true nan-aware summaries"""
+SUMMARY_FUNCS = {"min": np.nanmin, "max": np.nanmax, "mean": np.nanmean}
+
+
+def close(a, b, single):
+    """equality of two summary values: NaN == NaN, inf == inf, a tolerance that only absorbs a
+    different order of summation (the oracle must not depend on the algorithm used)"""
+    try:
+        return bool(np.isclose(float(a), float(b), rtol=1e-5 if single else 1e-11, atol=0,
+                               equal_nan=True))
+    except Exception:  # noqa
+        return False
+
+
+def summary_problems(src, out):
+    """property oracle on the raw files: a min/max/mean attribute that the task ADDED to a scalar
+    feature (the input did not carry it) must be the NaN-aware summary of the stored data —
+    dclab serves these attributes as `ds[feat].min()/max()/mean()` instead of looking at the data"""
     import h5py
     import warnings
     bad = []
-    with h5py.File(path, "r") as h:
-        for key, m in model.items():
-            if key[0] == "E" and key[2] == "-" and "90000" in m[2]:
-                name = key[1]
-                if name not in h["events"]:
-                    continue
-                d = h["events"][name]
-                with warnings.catch_warnings():
-                    warnings.simplefilter("ignore")
-                    for kv in m[2].split(","):
-                        k, v = kv.split("=")
-                        if v.startswith("90000") and k in d.attrs:
-                            want = {"min": np.nanmin, "max": np.nanmax, "mean": np.nanmean}[k](d[:])
-                            if not np.array_equal(np.asarray(d.attrs[k]), np.asarray(want),
-                                                  equal_nan=True):
-                                bad.append((name, k, float(d.attrs[k]), float(want)))
+    with h5py.File(src, "r") as hi, h5py.File(out, "r") as ho:
+        for name in ho.get("events", {}):
+            d = ho["events"][name]
+            if not isinstance(d, h5py.Dataset) or d.ndim != 1 or d.dtype.kind not in "fiu" \
+                    or d.shape[0] == 0:
+                continue
+            sattrs = hi["events"][name].attrs if name in hi.get("events", {}) else {}
+            data = None
+            for k, fn in SUMMARY_FUNCS.items():
+                if k in d.attrs and k not in sattrs:
+                    if data is None:
+                        data = d[:]
+                    with warnings.catch_warnings():
+                        warnings.simplefilter("ignore")
+                        want = fn(data)
+                    if not close(d.attrs[k], want, data.dtype.itemsize <= 4):
+                        bad.append(("summary attribute", name, k, float(d.attrs[k]), float(want)))
     return bad
 
 
@@ -258,6 +301,13 @@ def view_diff(vin, vout, task, flags):
             continue                                  # empty dataset: no content
         if vout["feats"].get(f) != val:
             probs.append(("dclab feature", f))
+    for f, sm in vin.get("summ", {}).items():
+        so = vout.get("summ", {}).get(f)
+        if so is None or sm is None:
+            continue
+        for k, a, b in zip(("min", "max", "mean"), sm[1], so[1]):
+            if not close(a, b, sm[0]):
+                probs.append(("dclab feature summary", f, k, a, b))
     for k, lines in vin["logs"].items():
         if is_cmd_log(k):
             continue
@@ -351,6 +401,15 @@ def one_case(ctx, idx, spec, lines, expects):
                 cd = [p for p in cd if p not in unk]
                 if cd:
                     probs.append(f"{label}: output differs from input in {cd[:3]}")
+                try:
+                    sp = summary_problems(src, out)
+                    ctx.stat("summary_oracle_runs")
+                except Exception as e:  # noqa
+                    sp = []
+                    ctx.note(f"summary oracle could not read an output: {e!r}"[:160])
+                if sp:
+                    probs.append(f"{label}: output differs from input in {sp[:2]}: the stored "
+                                 f"summary is not the NaN-aware min/max/mean of the feature data")
                 if vin is not None and task != "condense":
                     try:
                         vout = U.dclab_view(out)
@@ -642,11 +701,70 @@ def run(ctx, only=None):
     if only is None:
         n0 = len(ctx.violations)
         paths_part(ctx)
+        known_f75(ctx)
+        gens_part(ctx)
+        skip_part(ctx)
         tdms_dir_part(ctx)
         if ctx.thorough:
             tdms_part(ctx)
         return bool(all_probs) or len(ctx.violations) > n0
     return bool(all_probs)
+
+
+def known_f75(ctx):
+    """Recorded finding F75 (same root cause as F27): an internal basin whose definition lists a
+    feature stored as an EMPTY dataset in /basin_events.  The first compress/repack copies the
+    definition but skips the empty dataset; the second run rewrites the definition - the task
+    applied to its own output changes data.  Replayed once per run."""
+    import json as _json
+    import h5py
+    dclab = common.import_dclab()
+    from dclab import cli
+    try:
+        from dclab.util import hashobj
+    except Exception:  # noqa
+        ctx.note("F75 replay skipped: dclab.util.hashobj not importable")
+        return
+    wd = ctx.workdir / "f75"
+    wd.mkdir(exist_ok=True)
+    pin = wd / "in.rtdc"
+    gen.make_rtdc(pin, range(6), feats=["deform", "area_um"], rid="x")
+    with h5py.File(pin, "a") as h:
+        be = h.require_group("basin_events")
+        be.create_dataset("userdef1", data=np.arange(3, dtype=float))
+        be.create_dataset("userdef0", shape=(0,), dtype=float)
+        h["events"].create_dataset("basinmap0", data=np.array([0, 1, 2, 0, 1, 2], dtype=np.uint64))
+        bd = {"description": None, "format": "h5dataset", "name": "b-internal", "type": "internal",
+              "features": ["userdef0", "userdef1"], "mapping": "basinmap0",
+              "paths": ["basin_events"]}
+        lines = _json.dumps(bd, indent=2).split("\n")
+        h.require_group("basins").create_dataset(
+            hashobj(lines), data=np.array([x.encode() for x in lines], dtype="S100"))
+
+    def defs(path):
+        with h5py.File(path) as h:
+            return sorted((k, tuple(_json.loads(" ".join(x.decode() for x in h["basins"][k][:]))
+                                    .get("features") or ())) for k in h.get("basins", {}))
+
+    changed = []
+    for task in ("compress", "repack"):
+        a, b = wd / f"{task}1.rtdc", wd / f"{task}2.rtdc"
+        try:
+            getattr(cli, task)(path_in=pin, path_out=a)
+            getattr(cli, task)(path_in=a, path_out=b)
+        except Exception as e:  # noqa
+            ctx.note(f"F75 replay: {task} raised {type(e).__name__} on the recorded input")
+            continue
+        if defs(a) != defs(b):
+            changed.append(task)
+    ctx.stat("F75_replayed")
+    if changed:
+        ctx.known("F75", "an internal basin definition that lists a feature stored as an empty dataset "
+                         f"in /basin_events: {'/'.join(changed)} applied to its own output rewrites the "
+                         "basin definition (the first run skipped the empty dataset, same root cause "
+                         "as F27)")
+    else:
+        ctx.note("F75 (idempotence with an empty internal-basin dataset) no longer reproduces")
 
 
 def shrink(ctx, spec, what):
@@ -964,11 +1082,199 @@ def tdms_part(ctx):
                               {"correspondence": "tdms2rtdcRows", "tdms": name})
 
 
+# ---------------------------------------------------------------------------------------
+# command logs across generations: n successive dclab-compress runs keep n command logs
+def log_lines(h, name):
+    return [x.decode("utf-8", "replace") if isinstance(x, bytes) else str(x) for x in h["logs"][name][:]]
+
+
+def gens_part(ctx):
+    """compress a file k times in a row; every run's command log must survive under its own name
+    (property: logs are value-identical apart from the ADDED command log); names compared with
+    the model's `compressGen` / `cmdHistory`"""
+    common.import_dclab()
+    import h5py
+    from dclab import util
+    wd = ctx.workdir / "gens"
+    if wd.exists():
+        shutil.rmtree(wd)
+    wd.mkdir()
+    k = ctx.rng.randint(3, 4) if not ctx.thorough else ctx.rng.randint(4, 6)
+    user = {"cfg": ["a=1", "b=2"]} if ctx.rng.random() < 0.7 else {}
+    p0 = wd / "g0.rtdc"
+    gen.make_rtdc(p0, range(ctx.rng.randint(3, 8)), feats=["deform", "area_um"], rid=U.RID, logs=user)
+    paths, hashes, own = [p0], [], []
+    for j in range(k):
+        try:
+            hashes.append(util.hashfile(paths[-1], count=80))
+        except Exception as e:  # noqa
+            ctx.note(f"util.hashfile unavailable ({e!r}); log-name comparison skipped"[:160])
+            hashes.append(None)
+        pj = wd / f"g{j + 1}.rtdc"
+        err = run_task("compress", paths[-1], pj)
+        if err is not None:
+            ctx.violation("spec", f"compress run {j + 1} of {k} successive runs raised {err}",
+                          {"gens": k})
+            return
+        with h5py.File(pj, "r") as h:
+            own.append(log_lines(h, "dclab-compress") if "dclab-compress" in h.get("logs", {}) else None)
+        paths.append(pj)
+    ctx.case(("gens", k, bool(user)), nontrivial=True)
+    ctx.stat("compress_generations", k)
+    with h5py.File(paths[-1], "r") as h:
+        names = sorted(h.get("logs", {}).keys())
+        content = {n: log_lines(h, n) for n in names}
+    cmd = [n for n in names if n.startswith("dclab-compress") and "warnings" not in n]
+    probs = []
+    if len(cmd) != k:
+        probs.append(f"after {k} successive dclab-compress runs the file holds {len(cmd)} command "
+                     f"logs {cmd} instead of {k}")
+    for j, lines in enumerate(own):
+        if lines is None:
+            probs.append(f"run {j + 1} wrote no 'dclab-compress' log")
+        elif not any(content[n] == lines for n in cmd):
+            probs.append(f"the command log of run {j + 1} of {k} is lost in the final file")
+    for n, lines in user.items():
+        if content.get(n) != lines:
+            probs.append(f"user log {n!r} changed after {k} compress runs")
+    for pr in probs[:2]:
+        ctx.violation("spec", pr, {"gens": k})
+    # trusted base of `renameCollides`: h5py refuses a link under an existing name
+    try:
+        with h5py.File(wd / "probe.h5", "w") as h:
+            g = h.create_group("logs")
+            g["a"] = np.zeros(2)
+            g["a_x"] = np.ones(2)
+            try:
+                g["a_x"] = g["a"]
+                ctx.note("h5py overwrote an existing link on assignment: renameCollides no longer "
+                         "describes the equal-hash case")
+            except Exception:  # noqa
+                ctx.stat("h5py_refuses_existing_link")
+    except Exception as e:  # noqa
+        ctx.note(f"h5py link probe failed: {e!r}"[:120])
+    if ctx.lean_ok and not probs:
+        # the suffixes are taken from the observed names (which run's log sits under which name is
+        # what the model decides); that they are dclab.util.hashfile of the inputs is informative
+        pre = "dclab-compress_"
+        seen = []
+        for j in range(k - 1):
+            cands = [n for n in cmd if n.startswith(pre) and content[n] == own[j]]
+            seen.append(cands[0][len(pre):] if cands else "missing")
+        if all(hashes) and seen != hashes[1:]:
+            ctx.note("renamed command logs do not carry util.hashfile(input, count=80) as suffix "
+                     f"(observed {seen[:2]}, expected {hashes[1:3]})"[:200])
+        tok = U.Tok()
+        lines = U.proto_lines(p0, U.read_items(p0, tok)) + [
+            f"gens {k} " + ",".join(U.enc(x) for x in ["first"] + seen + ["zz"])]
+        ans = ctx.lean("C08", lines)[-1]
+        model = {}
+        for w in ans.split(" ")[0].split(","):
+            if "~" in w:
+                n, t = w.rsplit("~", 1)
+                model[n.replace("%2D", "-").replace("%2E", ".")] = t
+        distinct = len({tuple(x) for x in own}) == len(own)
+        actual = {}
+        for n in names:
+            if n in OWN_WARNING_LOGS or n.startswith("dclab-compress-warnings"):
+                continue
+            js = [j for j, lines in enumerate(own) if content[n] == lines]
+            actual[n] = f"c{js[0]}" if js and n in cmd else "u"
+        model = {n: t for n, t in model.items() if not n.startswith("dclab-compress-warnings")}
+        if set(model) != set(actual) or (distinct and model != actual):
+            ctx.violation("mirror", f"logs after {k} compress generations {actual} differ from the "
+                                    f"model {model}",
+                          {"correspondence": "Copy.compressGen / cmdHistory vs cli.compress", "gens": k})
+    shutil.rmtree(wd, ignore_errors=True)
+
+
+# ---------------------------------------------------------------------------------------
+# boundary-image skipping of tdms2rtdc (cli.common.skip_empty_image_events)
+def skip_part(ctx):
+    """which events are dropped as a function of the two options and of the first / last image;
+    compared with the model's `skipFlags` + `tdmsKept` (theorem tdms2rtdc_exact)"""
+    dclab = common.import_dclab()
+    import h5py
+    try:
+        from dclab.cli import common as cli_common
+        skip = cli_common.skip_empty_image_events
+    except Exception as e:  # noqa
+        ctx.note(f"cli.common.skip_empty_image_events not available ({e!r}); boundary-image "
+                 f"skipping not exercised"[:200])
+        return
+    combos = [(i, f, z0, z1, n) for i in (0, 1) for f in (0, 1) for z0 in (0, 1) for z1 in (0, 1)
+              for n in (1, 2, 3, 5)]
+    if not ctx.thorough:
+        combos = ctx.rng.sample(combos, 14)
+    wd = ctx.workdir / "skip"
+    if wd.exists():
+        shutil.rmtree(wd)
+    wd.mkdir()
+    lines, got = [], []
+    for c, (ini, fin, z0, z1, n) in enumerate(combos):
+        path = wd / f"s{c}.rtdc"
+        try:
+            gen.make_rtdc(path, range(n), feats=["deform", "image"], rid=U.RID)
+            with h5py.File(path, "r+") as h:
+                img = h["events"]["image"]
+                if not np.any(img[0]) or not np.any(img[n - 1]):
+                    continue                         # the generator's own payload is empty: skip
+                if z0:
+                    img[0] = 0
+                if z1:
+                    img[n - 1] = 0
+            with dclab.new_dataset(path) as ds:
+                has_contour = "contour" in ds
+                with contextlib_redirect():
+                    skip(ds, initial=bool(ini), final=bool(fin))
+                manual = np.asarray(ds.filter.manual, dtype=bool)
+                kept = [int(j) for j in np.where(manual)[0]]
+        except Exception as e:  # noqa
+            ctx.note(f"skip_empty_image_events could not be exercised: {e!r}"[:200])
+            continue
+        if has_contour:
+            continue
+        empty = {j for j in (0, n - 1) if (j == 0 and z0) or (j == n - 1 and z1)}
+        ctx.case(("skip", ini, fin, z0, z1, n), nontrivial=bool(empty))
+        ctx.stat("skip_cases")
+        lost = [j for j in range(n) if j not in kept and j not in empty]
+        if lost:
+            ctx.violation("spec", f"skip_empty_image_events(initial={bool(ini)}, final={bool(fin)}) "
+                                  f"drops the events {lost} of {n} whose image is not empty",
+                          {"skip": [ini, fin, z0, z1, n]})
+            break                                    # one report is enough
+        first0 = int(bool(z0 or (n == 1 and z1)))
+        last0 = int(bool(z1 or (n == 1 and z0)))
+        lines.append(f"tdmsx {ini} {fin} 1 0 0 {first0} {last0} {n}")
+        got.append(((ini, fin, z0, z1, n), kept))
+    if ctx.lean_ok and lines:
+        out = ctx.lean("C08", lines)
+        for (combo, kept), ans in zip(got, out):
+            want = ans.split("kept=")[-1]
+            if want != ",".join(map(str, kept)):
+                ctx.violation("mirror", f"skip_empty_image_events{combo}: kept events {kept} differ "
+                                        f"from the model ({ans})",
+                              {"correspondence": "Copy.skipFlags / tdmsKept vs "
+                                                 "cli.common.skip_empty_image_events",
+                               "skip": list(combo)})
+                break
+    shutil.rmtree(wd, ignore_errors=True)
+
+
+def contextlib_redirect():
+    import io
+    import contextlib
+    return contextlib.redirect_stdout(io.StringIO())
+
+
+
 def replay(ctx, data):
     r = data.get("replay", data)
-    if "paths" in r or "tdms_dir" in r:
+    if "paths" in r or "tdms_dir" in r or "gens" in r or "skip" in r:
         n0 = len(ctx.violations)
         paths_part(ctx)
+        gens_part(ctx)
+        skip_part(ctx)
         tdms_dir_part(ctx)
         return len(ctx.violations) > n0
     if "layout" not in r:
